@@ -262,7 +262,7 @@ def compare(case, scratch):
             g, r = out[i], ref.expanded[i]
             if norm_body(g) != norm_body(r):
                 label = "expansion"
-                mm = re.search(r"\b(?:%s)\s*\(" % "|".join(FUN_NAMES), lines[i])
+                mm = re.search(r"\b(?:%s)\s*\(" % "|".join(FUN_NAMES + TXT_NAMES), lines[i])
                 if mm:
                     depth, k = 0, mm.end() - 1
                     while k < len(lines[i]):
@@ -397,52 +397,67 @@ def tree_case_st(draw):
 
 @st.composite
 def macro_case_st(draw):
-    items = []
-    multiline = False
-    n = draw(st.integers(1, 3))
-    used = set()
-    for _ in range(n):
-        if draw(st.booleans()):
-            name = draw(st.sampled_from(TXT_NAMES))
-            if name in used:
+    """One or two rounds of (definitions, uses).  In the second round a macro of the first one may be defined again
+    (after the #undef realise() inserts) with another body or as the other kind (object-like <-> function-like)."""
+    plan_rounds = []
+    kind_of = {}
+    redefined = False
+    for rnd in range(draw(st.integers(1, 2))):
+        items = []
+        touched = []
+        for _ in range(draw(st.integers(1, 3))):
+            as_fun = draw(st.booleans())
+            pool = (FUN_NAMES if as_fun else TXT_NAMES)
+            if rnd == 1 and kind_of and draw(st.booleans()):
+                pool = sorted(kind_of)  # re-define something from the first round, either kind
+            name = draw(st.sampled_from(pool))
+            if name in touched:
                 continue
-            used.add(name)
-            body = draw(st.sampled_from(TXT_BODIES))
-            items.append(["deftxt", name, body])
-        else:
-            name = draw(st.sampled_from(FUN_NAMES))
-            if name in used:
-                continue
-            used.add(name)
-            body = draw(st.sampled_from(FUN_BODIES))
-            spaced = draw(st.booleans())
-            items.append(["deffun", name, "( a , b )" if spaced else "(a,b)", body])
-    names = sorted(used)
-    uses = []
-    for _ in range(draw(st.integers(1, 3))):
-        nm = draw(st.sampled_from(names))
-        if nm in TXT_NAMES:
-            tmpl = draw(st.sampled_from(["x = {}", "call s({}, 1)", "y = {} + {}", "  z({}) = 2", "{}"]))
-            uses.append(["use", tmpl.replace("{}", nm)])
-        else:
-            a1 = draw(st.sampled_from(["p", "1", "q2", "x_y"]))
-            a2 = draw(st.sampled_from(["r", "2", "k"]))
-            form = draw(st.integers(0, 9))
-            if form == 0:
-                uses.append(["use", f"w = {nm}({a1}, {a2}) + {nm}({a2},{a1})"])
-            elif form == 1:
-                uses.append(["use", f"w = {nm}(f({a1}), {a2})"])
+            touched.append(name)
+            if name in kind_of:
+                redefined = True
+            if as_fun:
+                body = draw(st.sampled_from(FUN_BODIES))
+                spaced = draw(st.booleans())
+                items.append(["deffun", name, "( a , b )" if spaced else "(a,b)", body])
+                kind_of[name] = "fun"
             else:
-                tmpl = draw(st.sampled_from(["w = {}", "call t({})", "  {}", "if ({} > 0) w = 1"]))
-                sp = draw(st.sampled_from(["", " "]))
-                uses.append(["use", tmpl.replace("{}", f"{nm}{sp}({a1},{sp}{a2})")])
+                body = draw(st.sampled_from(TXT_BODIES))
+                items.append(["deftxt", name, body])
+                kind_of[name] = "txt"
+        if not touched:
+            continue
+        uses = []
+        for _ in range(draw(st.integers(1, 3))):
+            nm = draw(st.sampled_from(sorted(touched) if rnd == 1 else sorted(kind_of)))
+            if kind_of[nm] == "txt":
+                tmpl = draw(st.sampled_from(["x = {}", "call s({}, 1)", "y = {} + {}", "  z({}) = 2", "{}"]))
+                uses.append(["use", tmpl.replace("{}", nm)])
+            else:
+                a1 = draw(st.sampled_from(["p", "1", "q2", "x_y"]))
+                a2 = draw(st.sampled_from(["r", "2", "k"]))
+                form = draw(st.integers(0, 9))
+                if form == 0:
+                    uses.append(["use", f"w = {nm}({a1}, {a2}) + {nm}({a2},{a1})"])
+                elif form == 1:
+                    uses.append(["use", f"w = {nm}(f({a1}), {a2})"])
+                else:
+                    tmpl = draw(st.sampled_from(["w = {}", "call t({})", "  {}", "if ({} > 0) w = 1"]))
+                    sp = draw(st.sampled_from(["", " "]))
+                    uses.append(["use", tmpl.replace("{}", f"{nm}{sp}({a1},{sp}{a2})")])
+        plan_rounds.append((items, uses))
+    if not plan_rounds:
+        plan_rounds = [([["deftxt", TXT_NAMES[0], TXT_BODIES[0]]], [["use", f"x = {TXT_NAMES[0]}"]])]
     wrap = draw(st.integers(0, 3))
-    plan = items + uses
-    if wrap == 1:
-        plan = items + [["cond", "if", "NA", [["1", uses]], [["code"]]]]
-    elif wrap == 2:
-        plan = items + [["cond", "if", "NA", [["0", [["code"]]]], uses]]
-    return {"kind": "macro", "defs": {}, "plan": plan}
+    plan = []
+    for items, uses in plan_rounds:
+        if wrap == 1:
+            plan += items + [["cond", "if", "NA", [["1", uses]], [["code"]]]]
+        elif wrap == 2:
+            plan += items + [["cond", "if", "NA", [["0", [["code"]]]], uses]]
+        else:
+            plan += items + uses
+    return {"kind": "macro", "defs": {}, "plan": plan, "redefined": redefined}
 
 
 def realise(case):
